@@ -22,7 +22,7 @@ ids = args[0].split(',')
 d = tempfile.mkdtemp(prefix='mut-')
 try:
     for item in ('setigen', 'tests', 'setup.py', 'pyproject.toml', 'setup.cfg'):
-        p = os.path.join('/repo', item)
+        p = os.path.join(os.environ.get('MUT_BASE', '/repo'), item)
         if os.path.isdir(p):
             shutil.copytree(p, os.path.join(d, item), ignore=shutil.ignore_patterns('__pycache__'))
         elif os.path.exists(p):
